@@ -4,8 +4,9 @@ from framework import Case
 import ring_common as R
 
 PROP = 'C14'
-BUILDS, TRANSLATORS, MINIMISE, SHARD_TIMEOUT, ASSUMPTIONS, RULE = R.BUILDS, R.TRANSLATORS, R.MINIMISE, R.SHARD_TIMEOUT, R.ASSUMPTIONS, R.RULE
-EXTRA_THEOREM_MODULES = R.EXTRA_THEOREM_MODULES + ['DcVerif.Lemmas.RingMultiSerial']
+BUILDS, MINIMISE, SHARD_TIMEOUT, ASSUMPTIONS, RULE = R.BUILDS, R.MINIMISE, R.SHARD_TIMEOUT, R.ASSUMPTIONS, R.RULE
+TRANSLATORS = R.TRANSLATORS + ['spseq']     # Gen/SpSeq.lean (single-producer arithmetic), Props/C14Gen.lean
+EXTRA_THEOREM_MODULES = R.EXTRA_THEOREM_MODULES + ['DcVerif.Props.C14Gen', 'DcVerif.Lemmas.RingMultiSerial']
 classify, nontrivial = R.classify, R.nontrivial
 
 
